@@ -300,9 +300,13 @@ class Skip(Exception):
 
 
 class Real:
-    def __init__(self, ps, fns=()):
+    def __init__(self, ps, fns=(), numeric_params=False):
+        """numeric_params: False = only actions with user-typed parameters have instances (historic behaviour);
+        True = also Boolean / bounded-integer parameters (what the grounder enumerates); "sampled" = also a few values
+        of unbounded-integer / real parameters"""
         self.ps = ps
         self.fns = list(fns)
+        self.numeric_params = numeric_params
         self.P, self.ctx = upp.build_problem(ps)
         self.objtype = dict(map(tuple, upp.get(ps, "objects")))
         # interpreted functions are total tables shipped with the case: (ref (arg values) value)
@@ -320,20 +324,37 @@ class Real:
         em = self.ctx.em
         self.key_exps = [em.FluentExp(self.ctx.fluent(ref), tuple(em.ObjectExp(self.ctx.obj(o, self.objtype[o])) for o in objs))
                          for ref, objs in self.keys]
-        self.instances = upp.ground_instances(ps)
+        self.ptypes = {a[1]: [p[1] for p in a[2]] for a in upp.get(ps, "actions")}
+        self.instances = upp.ground_instances(ps, numeric=bool(numeric_params), sampled=(numeric_params == "sampled"))
         self.replaced = 0
         self.sim = None
         self.new_sim()
 
+    def _mk_sim(self):
+        if self.numeric_params == "sampled":
+            # unbounded-integer / real action parameters are outside the simulator's own supported kind; the plan
+            # validator (whose kind includes them) builds its simulator exactly like this (plan_validator.py:150)
+            with warnings.catch_warnings(record=True):
+                return UPSequentialSimulator(self.P, error_on_failed_checks=False)
+        return UPSequentialSimulator(self.P)
+
     def new_sim(self):
-        self.sim = UPSequentialSimulator(self.P)
+        self.sim = self._mk_sim()
         return self.sim
 
     def fresh(self):
-        return UPSequentialSimulator(self.P)
+        return self._mk_sim()
 
-    def params(self, args):
-        return [self.ctx.obj(o, self.objtype[o]) for o in args]
+    def params(self, args, an=None):
+        """actual parameters from their atoms; with the action name, atoms of Boolean / integer / real formal
+        parameters are decoded by the parameter's type (upp.dec_arg), without it every atom is an object name"""
+        if an is None or an not in self.ptypes:
+            return [self.ctx.obj(o, self.objtype[o]) for o in args]
+        return [upp.dec_arg(pt, s, lambda o: self.ctx.obj(o, self.objtype[o])) for pt, s in zip(self.ptypes[an], args)]
+
+    def actuals(self, args, an):
+        """the same as constant FNodes"""
+        return tuple(self.ctx.em.auto_promote(self.params(args, an)))
 
     def dump(self, state):
         out = ["state"]
@@ -382,12 +403,12 @@ class Real:
             if h == "dump":
                 return self.dump(s), None
             if h == "apply":
-                r = sim.apply(s, self.P.action(op[2]), self.params(op[3]))
+                r = sim.apply(s, self.P.action(op[2]), self.params(op[3], op[2]))
                 return ("none", None) if r is None else (self.dump(r), r)
             if h == "isapp":
-                return sexp.B(sim.is_applicable(s, self.P.action(op[2]), self.params(op[3]))), None
+                return sexp.B(sim.is_applicable(s, self.P.action(op[2]), self.params(op[3], op[2]))), None
             if h == "applicable":
-                got = [(a.name, [p.object().name for p in ps_]) for a, ps_ in sim.get_applicable_actions(s)]
+                got = [(a.name, [upp.enc_arg(p) for p in ps_]) for a, ps_ in sim.get_applicable_actions(s)]
                 if REPLACE_DIRTY_SIM and self.dirty(sim):
                     # one of the internal is_applicable calls failed and left the shared walker dirty: the
                     # answers for the remaining instances are unreliable (D-C14a)
@@ -431,10 +452,10 @@ class Real:
         return out, slots
 
 
-def make_real(ps, fns=()):
+def make_real(ps, fns=(), numeric_params=False):
     """Real(ps) or Skip: unsupported kind / initial state violating its own invariants"""
     try:
-        r = Real(ps, fns)
+        r = Real(ps, fns, numeric_params)
     except UPUsageError:
         KEPT_OUT["unsupported-kind"] += 1
         raise Skip("unsupported kind")
@@ -800,7 +821,7 @@ def _ground_real(real, an, args):
     """the REAL grounder's view of the instance: None or (pre, effs) as s-expressions"""
     act = real.P.action(an)
     em = real.ctx.em
-    params = tuple(em.ObjectExp(o) for o in real.params(args))
+    params = real.actuals(args, an)
     ga = real.sim._grounder.ground_action(act, params)
     if ga is None:
         return None
@@ -868,11 +889,11 @@ def _fmt_state(real, m):
     return sexp.dumps(["state"] + [pyden.val_sexp(m.get((pyden.key(ref), tuple(("o", o) for o in objs)))) for ref, objs in real.keys])
 
 
-def analyse(pl):
+def analyse(pl, numeric_params=False):
     """runs the ops of a payload on the real code (one simulator instance, as impl does) and checks every
     answer against the documented semantics.  Returns (violation_or_None, set_of_tags, answers)."""
     ps, fns, ops = pl[1], pl[2][1:], pl[3][1:]
-    real = Real(ps, fns)
+    real = Real(ps, fns, numeric_params)
     answers, slots = real.run(ops)
     dumps = {}     # slot index -> dump of the state in it
     try:
@@ -952,12 +973,12 @@ def analyse(pl):
     return viol, tags, answers
 
 
-def analyse_c02(pl):
+def analyse_c02(pl, numeric_params=False):
     """C02 on the real code: is_applicable == (apply is not None); get_applicable_actions == the instances
     on which apply succeeds; is_goal == (get_unsatisfied_goals returns []); answering a query changes neither
     the states nor later answers (every answer == the same query on a fresh simulator; states re-read)."""
     ps, fns, ops = pl[1], pl[2][1:], pl[3][1:]
-    real = Real(ps, fns)
+    real = Real(ps, fns, numeric_params)
     answers, slots = real.run(ops)
     created = {}
     for j, (op, a) in enumerate(zip(ops, answers), start=1):
@@ -989,7 +1010,7 @@ def analyse_c02(pl):
             if k <= j and slots[k] is not None and k in (i,) and real.dump(slots[k]) != d:
                 return f"state {k} changed after {sexp.dumps(op)}"
         if h in ("apply", "isapp"):
-            act, par = real.P.action(op[2]), real.params(op[3])
+            act, par = real.P.action(op[2]), real.params(op[3], op[2])
             try:
                 ia = aux().is_applicable(s, act, par)
                 ap = aux().apply(s, act, par)
@@ -1001,7 +1022,7 @@ def analyse_c02(pl):
             want = []
             for an, args in real.instances:
                 try:
-                    if aux().apply(s, real.P.action(an), real.params(args)) is not None:
+                    if aux().apply(s, real.P.action(an), real.params(args, an)) is not None:
                         want.append([an, list(args)])
                 except Exception as e:
                     return f"apply {an}{args} raised {type(e).__name__}"
